@@ -5,22 +5,56 @@ ROOT = '/verif'
 ids = [json.loads(l)['id'] for l in open(f'{ROOT}/properties.jsonl')]
 
 # id: (engine, technique, level text, level note, design ref)
-CHECKS = {
- 'C20': ('E2-enum', 'bounded-exhaustive enumeration of all strings over a token alphabet, each parsed by the real parsers',
-         'Every string up to the stated length over the murex token alphabet is parsed by ParseBlock and by the highlighter tokenizer; a panic or a non-terminating input is reported with the input. Exhaustive within the alphabet/length bound, nothing beyond it.',
-         'alphabet (31 runes / 16-rune core / 38 multi-rune tokens) and length bounds; non-termination = no progress for 30 s with the stack inside the parser', '2/C20'),
- 'C37': ('E2-enum', 'bounded-exhaustive enumeration of all strings over a token alphabet through the real highlighter',
-         'Every string of the C20 spaces is highlighted and the ANSI-stripped result compared with the input byte for byte.',
-         'same alphabet and bounds as C20; inputs contain no ESC', '2/C37'),
+E1='E1-vsched'; E2='E2-enum'; E3='E3-xstate'; E4='E4-crashpt'
+T_E1='stateless DFS over thread interleavings of the real code under a controlled scheduler (source overlay), iterative preemption/deviation bounding'
+T_E2='bounded-exhaustive enumeration of inputs/programs run on the real code and compared with a reference model'
+T_E3='explicit-state BFS over operation histories of the real object with canonical-state deduplication, each transition compared with a reference model'
+T_E4='exhaustive crash-point (torn write prefix) enumeration over enumerated write histories on the real history file code'
+# id: (engine, technique, level text, level note)
+ALL = {
+ 'C01': (E1, T_E1, 'All interleavings (<=3 preemptions quick, <=4 thorough) of writer/reader/Stats drivers on a real streams.Stdin with a 2-4 byte back-pressure limit; every execution checked for exactly-once in-order delivery, EOF only when drained, no deadlock/livelock, exact byte counters.', 'scheduling points at every sync/channel/Sleep/go operation (atomics and plain accesses are not points); chunk alphabets and driver shapes as listed in evidence'),
+ 'C02': (E1, T_E1, 'All interleavings (<=3/4 preemptions) of SetDataType/GetDataType/Close/ForceClose drivers; results checked against the real-time-order reading of the statement (first valid declaration wins, never changes, * only after all writers closed).', 'type names from {"", null, json, str}; <=2 writers, <=2 readers; Tee secondary not asserted'),
+ 'C03': (E1, T_E1, 'Each listed sequential program is run by the whole real interpreter under the controlled scheduler; every schedule within the deviation bound (1 quick, 2 thorough) must terminate and give the same stdout/stderr/exit as the free-running run.', 'preemptions only at shared-visible operations; program list is finite and stated; whole-system exploration is bounded to 1-2 deviations'),
+ 'C04': (E2, T_E2, 'Every chain of up to 4 (quick) / 5 (thorough) commands over 6 command kinds and 5 joiners, plus chains up to 6/8 over a reduced alphabet, executed in-process; stdout + exit number compared with a reference interpreter written from the statement.', 'consumers piped from a skipped command are not asserted (statement silent); stderr not compared'),
+ 'C05': (E2, T_E2, 'The C04 chain space wrapped in try, trypipe and runmode try/trypipe functions; stdout and exit number compared with a reference model of the statement.', 'same alphabet as C04; consumers piped from a skipped alternative are not asserted'),
+ 'C06': (E2, T_E2, 'All typed expression chains/parenthesisations over 9 numeric literals and 10 operators up to 3 (quick) / 4 (thorough) operators, number spellings and string pairs; value and type compared with a C-precedence IEEE-754 evaluator.', 'expressions outside the typed grammar (boolean operands of arithmetic) are not asserted'),
+ 'C07': (E2, T_E2, 'All binary/ternary combinations of 21 operands with && || ?: ??, all short truthiness strings, through expressions, if, ! and ?:; compared with the truthiness table of the statement.', 'relative precedence of the logical operators and values of undefined variables are not asserted'),
+ 'C08': (E2, T_E2, 'All strings up to length 3/4 over a hostile alphabet as scalar values and all small arrays as array values; the argv a command receives is recorded byte-for-byte by a harness builtin and through $PARAMS.', 'values injected through the variable table, never through source text'),
+ 'C09': (E2, T_E2, 'All strings up to length 4/5 over a quote-rich alphabet, encoded with each quoting style that can represent them, evaluated as statement argument and as expression value; decoded value must equal the original.', 'only documented escapes are used by the encoders'),
+ 'C10': (E2, T_E2, 'All small argv vectors over a hostile alphabet escaped as --execute and esccli do, then parsed by the real block and statement parsers; must give exactly one command with exactly those arguments.', 'argvToCmdLineStr (package main) is mirrored and the mirror cross-checked against the real binary on a subset'),
+ 'C11': (E3, T_E3, 'All programs (op trees) up to 4/5 operations of set/unset/read/global operations spread over function calls, blocks and sub-shells; every read compared with a scope-stack model.', 'names {x,y}, values {1,2}, nesting <=2'),
+ 'C12': (E3, T_E3, 'BFS over copy/modify/read histories on JSON-typed variables; after each step both variables are compared with a deep-copy tree model.', 'three base documents, small path/value sets; converted representation only asserted where documented'),
+ 'C13': (E2, T_E2, 'All integers up to 2^20/2^24 plus neighbourhoods of powers of two/ten up to 2^53, floats over every exponent with sparse/dense mantissas, booleans; string round trip through ConvertGoType and murex variables must be the identity.', 'NaN/Inf excluded (statement says finite)'),
+ 'C14': (E2, T_E2, 'All JSON documents from a small grammar with hostile string leaves through format yaml/toml/jsonl/csv and back; decoded values must be equal.', 'per-format representable subsets as the statement lists; documents injected through stdin'),
+ 'C15': (E2, T_E2, 'All lists up to 3/4 elements over per-type legal element sets (plus 60 KiB elements) written with WriteArray and read back with ReadArray and foreach for every registered array type.', 'toml/path/paths excluded by design with recorded reasons'),
+ 'C16': (E2, T_E2, 'All arrays of length 0..4/6 with every index in [-8,8]/[-30,30] through [k], ![k], [[/k]] on json/yaml/jsonl, index pairs, and maps; element or clean error, never a panic report.', 'case-variant map keys not asserted'),
+ 'C17': (E2, T_E2, 'All lists of 0..6/10 items with all start/end in a window and the e flag through the range filter; compared with a slice model where the statement defines the result, otherwise clean exit/error and in-order subsequence.', 'forms outside the statement only get the universal clauses'),
+ 'C18': (E2, T_E2, 'All integer pairs in [-12,12]^2 / [-200,200]^2, zero-padded spellings and multi-block parameters through a and ja; compared with a reference generator.', 'block sizes <=3'),
+ 'C19': (E2, T_E2, 'All programs of an allow-listed builtin with arity <=1/2 from an adversarial argument alphabet, as function and method over 4 stdin shapes; must return control, report errors with non-zero exit, never print a panic report.', 'allow-list of non-interactive builtins; hang judged from process state'),
+ 'C20': (E2, T_E2, 'Every string up to the stated length over the murex token alphabet through ParseBlock and the highlighter tokenizer; a panic or a non-terminating input is reported.', 'alphabet (31 runes / 16-rune core / 38 tokens) and length bounds'),
+ 'C21': (E2, T_E2, 'ALL exit codes 0-255 and all terminating signals of a helper process, alone, with && and || and inside try; exit number and control flow compared with the statement.', 'finite space enumerated completely'),
+ 'C22': (E2, T_E2, 'Every subset of {private, alias, function, builtin, external} defined for one name x alias targets x call contexts; the marker printed must be that of the highest-precedence definition, alias expanded once.', 'finite space enumerated completely'),
+ 'C23': (E2, T_E2, 'All signatures of <=2/3 parameters from the documented grammar x argument lists, binding compared with a model; all strings up to length 6/8 over a 9-rune alphabet through the signature parser (accepts exactly the grammar, no panic).', 'missing mandatory parameters are not generated (murex prompts on the terminal)'),
+ 'C24': (E2, T_E2, 'All 32 well-formed flag tables x all argument lists of <=4/5 tokens through ParseFlags against a reference parser, and through the args builtin.', 'ill-formed lists only get the no-panic clause'),
+ 'C25': (E3, T_E3, 'All programs of config set/get/default operations over a global and a non-global option at call depths <=2; every get compared with a scope model.', 'two values per option'),
+ 'C26': (E1, T_E1, 'Every operation sequence of length <=3/4 over create/close/delete/get/dump on 2 names, and every pair of <=2-operation sequences from two threads, interleaved in all ways (<=2 preemptions) with the asynchronous close timers; no panic, no deadlock, results explained by a linearizable registry model.', 'grace period and retry sleeps modelled as yields, not durations'),
+ 'C27': (E3, T_E3, 'BFS to a fixpoint over add/terminate/garbage-collect/lookup histories on the real job table with <=4/6 jobs; every lookup compared with the model of the statement.', 'synthetic Process values'),
+ 'C28': (E1, T_E1, 'Two session threads run one program each through the whole interpreter; all schedules within the deviation bound; a monitor at every scheduling point checks FID uniqueness, and at quiescence the FID table must be back to its baseline.', 'preemptions only at shared-visible operations; bound 1 quick / 2 thorough'),
+ 'C29': (E4, T_E4, 'All histories of <=2x2 / 3x3 commands over a block alphabet (multi-line, unicode, 70 KiB, 200 KiB); the file is truncated at EVERY byte of the last write (sampled offsets for the long entries), further sessions append, reload must give every acknowledged entry except possibly the torn one.', 'crash model = torn single append (prefix); murex never fsyncs so power-loss models are out of scope'),
+ 'C30': (E3, T_E3, 'BFS over write/read/trim/clear histories on namespaces x keys x values x TTL classes of the real cache (memory + sqlite); every read compared with the model.', 'real clock: TTLs kept >=30 min from now, expiry during a history is outside the bound'),
+ 'C31': (E2, T_E2, 'Functions with fixed stdout/stderr/exit x the product of assertion choices in the test plan; verdict of test unit compared with an oracle evaluating each assertion.', '9 assertion dimensions as listed in evidence'),
+ 'C32': (E1, 'stateless DFS over schedules of the real interpreter built with the Go race detector, scheduler hand-offs invisible to the detector; the detector judges every explored schedule', 'Listed concurrent programs run under the controlled scheduler in a -race build whose scheduler shims are uninstrumented (futex gates), so each explored schedule is judged by the race detector with exactly the program\'s own synchronisation; a canary race must be reported on every run.', 'only accesses executed by the explored programs/schedules are seen; detector history is finite; bound 1 quick / 2 thorough'),
+ 'C33': (E2, T_E2, 'Every combination of <err>/<null> x <!out>/<!null> on commands writing chosen payloads to stdout/stderr, as last command and as pipeline stage, and |> / >> over previous file contents; bytes must arrive exactly where the statement routes them.', 'payload alphabet of 4 byte strings'),
+ 'C34': (E2, T_E2, 'All token sequences of length <=4/5 over safe/unsafe/unknown commands, pipes, blocks, sub-shells, assignments and redirections; whenever the tokenizer says safe, the real parser\'s tree of the text autocomplete would execute must contain only safe commands.', 'one-directional oracle (tokenizer may be conservative)'),
+ 'C35': (E2, T_E2, 'Every byte string of length <=1/2 over all 256 byte values plus longer strings over a 16-byte core through escape/!escape, eschtml/!eschtml, escurl/!escurl as methods; output bytes must equal input bytes.', 'bytes injected through stdin'),
+ 'C36': (E2, T_E2, 'All JSON documents from a grammar (36 scalar leaves, depth <=3, <=2/3 children, 4 layouts) as %[ ]/%{ } literals; value compared with encoding/json.', 'strings without backslash, $, ~, parentheses as the property states'),
+ 'C37': (E2, T_E2, 'Every string of the C20 spaces is highlighted and the ANSI-stripped result compared with the input byte for byte.', 'same alphabet and bounds as C20; inputs contain no ESC'),
+ 'C38': (E2, T_E2, 'All arrays up to length 3/5 over a hostile element set through msort/mtac/prepend/append/match/!match/left/right/prefix/suffix; multiset and order relations of the statement.', 'elements compared as strings'),
+ 'C39': (E2, T_E2, 'All program trees of nested foreach/while/if/function with conditional break/continue/return (<=2 loops, <=3 statements per body); output and exit compared with a reference interpreter of the fragment.', 'fragment as listed'),
 }
-CHECKS.update({
- 'C04': ('E2-enum', 'bounded-exhaustive enumeration of command chains run on the real interpreter against a reference interpreter',
-         'Every chain of up to 4 (quick) / 5 (thorough) commands over 6 command kinds and 5 joiners, plus chains up to 6/8 over a reduced alphabet, is executed in-process and stdout + exit number are compared with a reference interpreter written from the statement.',
-         'command alphabet {out, two failing functions, true, false, err} and joiners {; newline && || |}; consumers piped from a skipped command are not asserted (statement silent); stderr not compared', '2/C04'),
- 'C05': ('E2-enum', 'bounded-exhaustive enumeration of command chains under try/trypipe/runmode against a reference model',
-         'The C04 chain space wrapped in try, trypipe and runmode try/trypipe functions; stdout and exit number compared with a reference model of the statement.',
-         'same alphabet as C04; consumers piped from a skipped alternative are not asserted (statement silent)', '2/C05'),
-})
+# properties whose check is built, green and merged into cmd/vh or cmd/vhs
+READY = ['C01','C02','C03','C04','C05','C06','C07','C13','C20','C22','C23','C24','C26','C28','C31','C32','C36','C37']
+CHECKS = {i: (ALL[i][0], ALL[i][1], ALL[i][2], ALL[i][3], '2/'+i) for i in READY}
 NA_REASON = {}
 
 def main():
